@@ -2,8 +2,19 @@
 """Writes MANIFEST.json from tools/manifest_src.py (single source of truth for the interface file)."""
 import json, os, sys
 sys.path.insert(0, os.path.dirname(os.path.abspath(__file__)))
+import importlib
 import manifest_src as M
 root = os.path.dirname(os.path.dirname(os.path.abspath(__file__)))
+sys.path.insert(0, root)
+# a property is claimed when props/cXX.py exists and defines MANIFEST = dict(text=, note=, technique=)
+for i in range(1, 21):
+    pid = "C%02d" % i
+    if os.path.exists(os.path.join(root, "props", pid.lower() + ".py")):
+        mod = importlib.import_module("props." + pid.lower())
+        if getattr(mod, "MANIFEST", None):
+            M.CLAIMED[pid] = mod.MANIFEST
+        if getattr(mod, "NOT_CLAIMED_REASON", None):
+            M.NOT_APPLICABLE[pid] = mod.NOT_CLAIMED_REASON
 ids = [json.loads(l)["id"] for l in open(os.path.join(root, "properties.jsonl"))]
 checks = []
 for pid in ids:
